@@ -35,7 +35,7 @@ func history(c *drv.Ctx, bin string, seed int64, idx int) error {
 		return err
 	}
 	defer func() { w.Kill() }()
-	opts := mixed.Opts{Tag: fmt.Sprint(idx), Admin: true}
+	opts := mixed.Opts{Tag: fmt.Sprint(idx), Admin: true, NJWide: true}
 	nrestarts := 1 + r.Intn(c.N(2, 4))
 	opsPer := c.N(14, 22)
 	if idx%2 == 1 {
